@@ -13,9 +13,12 @@
    object's identity/attributes: two entries may share a key and differ in id).
 
    A contents set is a function  m : (finite set of normalised paths) -> value.
-   Arguments of the set algebra are given as a sequence of entries (the elements of
-   "another set" or of a generator of entries); Rel(arg) is the relation key -> values
-   they denote.  Where map semantics leaves the surviving VALUE of a shared key open
+   Arguments of the set algebra are given as a sequence of elements: the elements of
+   "another set", or of any other iterable (generator, list, tuple, Python set - duplicates
+   of a key included).  An element is an entry or - wherever only the KEY of an element is
+   needed (difference, intersection_update, the subset/superset/disjoint tests) - a path
+   string in any spelling, written as an element of kind "str".  Rel(arg) is the relation
+   key -> values they denote.  Where map semantics leaves the surviving VALUE of a shared key open
    (union/intersection: mine or theirs?) both are permitted: the spec fixes the key set
    exactly and requires every value to come from a permitted source.                  *)
 EXTENDS Integers, Sequences, FiniteSets
@@ -51,11 +54,21 @@ Val(e) == [id |-> e.id, kind |-> e.kind]
 Key(e) == Norm(e.sp)
 Rel(arg)     == {<<Key(arg[i]), Val(arg[i])>> : i \in DOMAIN arg}
 RKeys(R)     == {p[1] : p \in R}
-RVals(R, k)  == {p[2] : p \in {q \in R : q[1] = k}}
+\* values an argument can contribute for key k (a path string names a key, it carries no value)
+RVals(R, k)  == {p[2] : p \in {q \in R : q[1] = k /\ q[2].kind # "str"}}
 
 \* dict.update / repeated add: the last entry of a key wins
 RECURSIVE PutAll(_, _)
 PutAll(m, arg) == IF arg = <<>> THEN m ELSE PutAll(Put(m, Key(Head(arg)), Val(Head(arg))), Tail(arg))
+
+\* update from an UNORDERED container (a Python set): which of several elements of one key comes
+\* last is not defined, any of them may win
+UpdateAnyOK(m2, m, R) ==
+  /\ DOMAIN m2 = DOMAIN m \cup RKeys(R)
+  /\ \A k \in DOMAIN m2 : m2[k] \in (IF k \in RKeys(R) THEN RVals(R, k) ELSE {m[k]})
+UpdateAnyResults(m, R) ==
+  LET D == DOMAIN m \cup RKeys(R) IN
+  {f \in [D -> UNION {RVals(R, k) : k \in RKeys(R)} \cup {m[k] : k \in DOMAIN m}] : UpdateAnyOK(f, m, R)}
 
 (* --------------------------- set algebra ---------------------------- *)
 BinKeys(b, m, R) ==
@@ -97,7 +110,8 @@ Closed(m)             == \A k \in DOMAIN m : Ancestors(k) \subseteq DOMAIN m
 (* ------------------ one public operation (an action) ----------------- *)
 (* a = [op, how, sp, id, kind, arg, old, new, dirid, adopt]
      op    : method name
-     how   : "entry" | "str" for lookup/removal arguments, "set" | "gen" for set arguments
+     how   : "entry" | "str" for lookup/removal arguments; for set arguments the container:
+             "set" (a contentsSet) | "gen" | "list" | "tuple" | "pyset"
              (binding-level choice; the abstract meaning does not depend on it)
      sp,id,kind : the entry / the spelling of the string argument
      arg   : Seq(entry), the other set / generator
@@ -109,6 +123,8 @@ Tests   == {"issubset", "issuperset", "isdisjoint"}
 Reloc   == {"change_offset", "insert_offset"}
 ByKey   == {"remove", "delitem", "discard", "getitem", "contains"}
 Others  == {"add", "update", "clear", "add_missing_directories"}
+\* operations that need only the keys of their argument: its elements may be path strings
+KeyOnly == {"difference", "difference_update", "intersection_update"} \cup Tests
 AllOps  == BinPure \cup BinUpd \cup Tests \cup Reloc \cup ByKey \cup Others
 BaseOf(op) == CASE op = "intersection_update" -> "intersection"
                 [] op = "difference_update" -> "difference"
@@ -120,6 +136,7 @@ ActionOK(a) ==
   /\ a.op \in AllOps
   /\ SpellOK(a.sp) /\ SpellOK(a.old) /\ SpellOK(a.new)
   /\ \A i \in DOMAIN a.arg : SpellOK(a.arg[i].sp)
+  /\ \A i \in DOMAIN a.arg : a.arg[i].kind = "str" => (a.op \in KeyOnly /\ a.how # "set")
 
 \* KeyError expected
 Raises(m, a) == a.op \in {"remove", "delitem", "getitem"} /\ Norm(a.sp) \notin DOMAIN m
@@ -133,7 +150,7 @@ PostOK(m2, m, a) ==
   CASE a.op = "add"     -> m2 = Put(m, k, Val(a))
     [] a.op \in {"remove", "delitem", "discard"} -> m2 = Drop(m, {k})
     [] a.op = "clear"   -> m2 = Empty
-    [] a.op = "update"  -> m2 = PutAll(m, a.arg)
+    [] a.op = "update"  -> IF a.how = "pyset" THEN UpdateAnyOK(m2, m, Rel(a.arg)) ELSE m2 = PutAll(m, a.arg)
     [] a.op \in BinUpd  -> BinOK(BaseOf(a.op), m2, m, Rel(a.arg))
     [] a.op = "add_missing_directories" -> m2 = AddMissingDirs(m, [id |-> a.dirid, kind |-> "dir"])
     [] OTHER            -> m2 = m
@@ -142,7 +159,7 @@ Posts(m, a) ==
   CASE a.op = "add"     -> {Put(m, k, Val(a))}
     [] a.op \in {"remove", "delitem", "discard"} -> {Drop(m, {k})}
     [] a.op = "clear"   -> {Empty}
-    [] a.op = "update"  -> {PutAll(m, a.arg)}
+    [] a.op = "update"  -> IF a.how = "pyset" THEN UpdateAnyResults(m, Rel(a.arg)) ELSE {PutAll(m, a.arg)}
     [] a.op \in BinUpd  -> BinResults(BaseOf(a.op), m, Rel(a.arg))
     [] a.op = "add_missing_directories" -> {AddMissingDirs(m, [id |-> a.dirid, kind |-> "dir"])}
     [] OTHER            -> {m}
